@@ -30,6 +30,8 @@ func init() {
 		{"netsim-sync", netsim.RaceWorkload},
 		// checkpointed filter-header sync of the real block manager through the real work manager, >= 3 answering peers
 		{"cfcheckpt", wlCFCheckpt},
+		// GetBlock through the real work manager, stopped while the response handler validates the answer
+		{"getblock-shutdown", wlGetBlockShutdown},
 	}
 }
 
